@@ -328,7 +328,7 @@ class _Sim(object):
             if a == "print":
                 m = self.next_marker(act["stream"], scen_id, ev)
                 stream = sys.stdout if act["stream"] == "stdout" else sys.stderr
-                stream.write(m + act.get("text", "") + "\n")
+                stream.write(m + act.get("text", "") + act.get("eol", "\n"))
                 ev["did"].append(["print", act["stream"], m])
             elif a == "log":
                 m = self.next_marker("log", scen_id, ev)
